@@ -28,8 +28,11 @@ def run(ctx):
         rule="a case = one byte stream: the real encoding of a real block X (5 shapes: with/without transactions, votes, BTP "
              "digest) whose patch list, transaction list, vote list, BTP digest and network-section filter each come from X, "
              "from a real block Y of another chain (5 shapes) or are empty (3^5 mixes), or X's encoding cut at / inside every "
-             "top-level field, with an inflated list length, a flipped type tag or trailing bytes; %d cases, each decoded by "
-             "BlockManager and BlockDataFactory; verdict predicted by TLC; every accepted stream is additionally checked "
+             "top-level field, with an inflated list length, a flipped type tag or trailing bytes, or with one header field that no "
+             "body hash protects re-encoded malformed (proposer of 0/19/20/22 bytes, type byte 2 or 255, absent; over-long "
+             "version/height/timestamp; odd-length prevID, votesHash, nextValidatorsHash, logsBloom, result, nsFilter) while "
+             "everything else stays hash-consistent; %d cases, each decoded by "
+             "BlockManager and BlockDataFactory (malformed headers also by NewBlockFromHeaderReader); verdict predicted by TLC; every accepted stream is additionally checked "
              "against the literal binding statement" % len(bs),
         assumptions=["partial scope for 'arbitrary bytes': only the malformed classes the spec enumerates (truncation at and inside "
                      "every top-level field, inflated list length, flipped type tag, trailing bytes); unstructured random "
